@@ -4,6 +4,10 @@ TP = "traces_parser.py"
 TR = "trace_handlers/trace.py"
 B = "trace_handlers/bsd.py"
 MUTANTS = [
+    F("C08", "parse_vnode takes only the contiguous run of lookup records", TP,
+      "            return self.parse_vnodes(events)[0]\n",
+      "            return list(self.vnode_generator(itertools.takewhile(lambda e: self.trace_codes.get(e.eventid) == 'VFS_LOOKUP', events)))[0]\n",
+      "R1", more=[(TP, "from collections import namedtuple\n", "from collections import namedtuple\nimport itertools\n")]),
     F("C08", "path slice starts inside the header", TP, "                path += event.data[8:]", "                path += event.data[4:]", "R1"),
     F("C08", "path slice skips two words", TP, "                path += event.data[8:]", "                path += event.data[16:]", "R1"),
     F("C08", "global string slice too short", TR, "            vstr += event.data[16:]", "            vstr += event.data[8:]", "R1"),
